@@ -139,3 +139,27 @@ package store
 //@   trusted
 //@   nonrecursive
 //@   ensures r != nil
+
+// GetAttribute: the first attribute with the expanded name (used by lang(), C12).
+//@ extern node.Attribute.Space(n) (r)
+//@   pure
+//@   uses strval
+//@   ensures r == nodeSpace(n)
+
+//@ extern node.Attribute.Local(n) (r)
+//@   pure
+//@   uses strval
+//@   ensures r == nodeLocal(n)
+
+//@ func GetAttribute(c, space, local) (r, ok)
+//@   pure
+//@   abstractcursor
+//@   property C12 C13 C15
+//@   uses namefn
+//@   requires c != nil
+//@   ensures ok == (attrIdx(c, space, local) >= 0)                            @found-iff-an-attribute-has-the-name
+//@   ensures ok ==> r == nodeOf(attrAt(c, attrIdx(c, space, local)))          @first-such-attribute
+//@   loop 0
+//@     invariant 0 - 1 <= #k && #k < nat(c) || (nat(c) == 0 && #k == 0 - 1)
+//@     invariant forall j Int :: 0 <= j && j <= #k ==> !attrNamed(attrAt(c, j), space, local)
+//@     decreases nat(c) - #k
